@@ -20,6 +20,9 @@ Q = 'des_cqueue::stable::CQueue'
 L = 'des_cqueue::stable::linked_list::DualLinkedList'
 INSERT_Z = ('std::collections::VecDeque::push_back', 'std::collections::VecDeque::push_front')
 EXTRACT_Z = ('std::collections::VecDeque::pop_front', 'std::collections::VecDeque::pop_back')
+ZREMOVERS = {'std::collections::VecDeque::remove', 'std::collections::VecDeque::swap_remove_back', 'std::collections::VecDeque::swap_remove_front',
+             'std::collections::VecDeque::retain', 'std::collections::VecDeque::retain_mut', 'std::collections::VecDeque::drain',
+             'std::collections::VecDeque::pop_front', 'std::collections::VecDeque::pop_back'}
 REMOVE_Z = ('std::collections::VecDeque::remove', 'std::collections::VecDeque::swap_remove_back',
             'std::collections::VecDeque::swap_remove_front')
 
@@ -224,6 +227,14 @@ def r3_container_agreement(ctx):
             return 'bucket'
         return None
     add_paths = [(p, path_atoms(fa, p, d)) for p, o, d in fn_paths(ctx, fa) if o == 'return']
+    # role: the zero container = the field add's same-instant insertion goes to
+    zfield = None
+    for p, _ in add_paths:
+        for e in path_effects(fa, p):
+            if _is_call(e, *INSERT_Z) and e[2]:
+                zfield = receiver_field(e[2][0]) or zfield
+    if not ctx.check(zfield is not None, 'zero-role', "CQueue::add's same-instant insertion goes to a field of self (the zero container)", fa.where(), zfield):
+        return
     can_paths = []
     for p, o, d in fn_paths(ctx, fc):
         if o != 'return':
@@ -231,11 +242,16 @@ def r3_container_agreement(ctx):
         effs = path_effects(fc, p)
         atoms = path_atoms(fc, p, d)
         searched = []
+        # a search of the zero container = any use of that field on the path; it found the event iff the path removes from it
+        ztouch = [e for e in effs if e[0] == 'c' and e[2] and receiver_field(e[2][0]) == zfield]
+        if ztouch:
+            zremoved = any(e[1].names() & ZREMOVERS for e in ztouch)
+            said = None
+            for e in ztouch:
+                if e[1].names() & {'std::iter::Iterator::position', 'std::iter::Iterator::find', 'std::iter::Iterator::any'}:
+                    said = _atoms_say(atoms, e[1].name, variant='Some')
+            searched.append(('zero', True if zremoved else (said if said is not None else False)))
         for e in effs:
-            if e[0] == 'c' and e[1].names() & {'std::iter::Iterator::position', 'std::iter::Iterator::find', 'std::iter::Iterator::any'} \
-                    and receiver_field(e[2][0]) is not None:
-                found = _atoms_say(atoms, e[1].name, variant='Some')
-                searched.append(('zero', found))
             if _is_call(e, L + '::cancel'):
                 searched.append(('bucket', _atoms_say(atoms, L + '::cancel', truth=True)))
         can_paths.append((p, atoms, searched))
